@@ -35,6 +35,11 @@ Indirect-call rules (the *trusted* part; validated dynamically by h_C03.cpp):
         -> every virtual member reply/broadcast/chain/replyArray/
            broadcastArray/chainArray/forward of rtosc::RtData (the base class'
            default forwarding) and of c03::CaptureData (the harness' RtData)
+  HOOK  a call on a source line that is a RTOSC_VERIF_POINT(id) macro use (the
+        guarded verification point added by this framework's hook commit:
+        `if(rtosc_verif_hook) rtosc_verif_hook(id, ring)`) -> no target: the
+        pointer is null unless a verification harness installs one, and the
+        macro expands to nothing without -DRTOSC_VERIF
   anything else -> unresolved_indirect (forbidden)
 """
 import os, re, sys, json, glob, hashlib, subprocess
@@ -211,6 +216,14 @@ def translate(ci_files, sugar_ci):
         elif (not site.split(":")[0].endswith("std_function.h")) and \
                 (VIRT_SRC_RE.match(dem[a]) or a in handlers):
             rule, tg = "VIRT", virt
+        elif "RTOSC_VERIF_POINT(" in txt:
+            # the guarded verification point of this framework (hook commit
+            # "RTOSC_VERIF_POINT before every shared access of the ThreadLink
+            # ring"): `if(rtosc_verif_hook) rtosc_verif_hook(id, ring)`.  The
+            # pointer is null unless a verification harness installs a
+            # scheduler, and the macro expands to nothing without
+            # -DRTOSC_VERIF, so the site has no target in the library.
+            rule, tg = "HOOK", set()
         else:
             rule, tg = "UNRESOLVED", None
         sites.append((a, site, rule))
